@@ -258,15 +258,11 @@ func (client *FCGIClient) writePairs(recType uint8, pairs map[string]string) err
 	b := make([]byte, 8)
 	nn := 0
 	for k, v := range pairs {
-		m := 8 + len(k) + len(v)
-		if m > maxWrite {
-			// param data size exceed 65535 bytes"
-			vl := maxWrite - 8 - len(k)
-			v = v[:vl]
-		}
+		// Note: a pair larger than one record is not cut short: FCGI_PARAMS
+		// is a stream, the pair simply continues in the next record(s)
 		n := encodeSize(b, uint32(len(k)))
 		n += encodeSize(b[n:], uint32(len(v)))
-		m = n + len(k) + len(v)
+		m := n + len(k) + len(v)
 		if (nn + m) > maxWrite {
 			w.Flush()
 			nn = 0
